@@ -31,7 +31,9 @@ fn dropout_net(rng: &mut Rng) -> NetCfg {
                     // feedback block on the current shape
                     let blen = rng.range(1, 2);
                     let body = preserving_body(rng, cur, blen, &acts, false);
-                    Some(LCfg::Feedback { body, loops: rng.range(1, 3), inskips: false, outskips: false, acc: Acc::Mean })
+                    // (with and without internal skips: output skips combine what the last body
+                    // layer emitted - dropped units included, while training - with earlier outputs)
+                    Some(LCfg::Feedback { body, loops: rng.range(1, 3), inskips: rng.bool(), outskips: rng.bool(), acc: *rng.pick(&[Acc::Mean, Acc::Mean, Acc::Add]) })
                 }
                 (_, Sh::Sp(c, h, w)) => {
                     let k = rng.range(0, 3);
